@@ -159,6 +159,8 @@ def c04(res: CheckResult) -> None:
              list(DF.fam_hier(res.tier, rng)), ic, verdicts=True, rng=rng)
     def_unit(res, "diamonds where one branch inherits and the other overrides, invariants introduced at different levels",
              list(DF.fam_shadow(res.tier, rng)), ic, verdicts=True, rng=rng)
+    def_unit(res, "every placement of {absent, bare, pre, post} on every class of every shape (exhaustive)",
+             list(DF.fam_hier_small(res.tier, rng)), ic, verdicts=True, rng=rng)
 
 
 @check("C17")
@@ -170,6 +172,8 @@ def c17(res: CheckResult) -> None:
              list(DF.fam_inv_lists(res.tier, rng)), ic, rng=rng)
     def_unit(res, "inheritance DAGs x contract placements: every earlier class re-projected after each step",
              list(DF.fam_hier(res.tier, rng)), ic, rng=rng)
+    def_unit(res, "every placement of {absent, bare, pre, post} on every class of every shape (exhaustive)",
+             list(DF.fam_hier_small(res.tier, rng)), ic, rng=rng)
 
 
 @check("C18")
@@ -181,3 +185,7 @@ def c18(res: CheckResult) -> None:
                   "assignments); registration hook", list(DF.fam_hier(res.tier, rng)), ic, verdicts=True, rng=rng)
     def_unit(res, "decorator stacks with foreign wrappers: one checker, lists readable through the stack",
              list(DF.fam_stacks(res.tier, rng)), ic, verdicts=True, rng=rng)
+    def_unit(res, "overrides carrying foreign functools.wraps decorators in hierarchies",
+             list(DF.fam_foreign_hier(res.tier, rng)), ic, verdicts=True, rng=rng)
+    def_unit(res, "registration hook: classes in modules with assorted names, with and without the metaclass",
+             list(DF.fam_modules(res.tier, rng)), ic, rng=rng)
